@@ -1225,6 +1225,13 @@ class LogicalBracket_2d(BracketBasic):
         return dx1(u)*dx2(v) - dx2(u)*dx1(v)
 
 #==============================================================================
+def _get_atom_all_derivatives(expr):
+    """the expression below a chain of physical and/or logical derivatives"""
+    while isinstance(expr, _partial_derivatives + _logical_partial_derivatives):
+        expr = expr.args[0]
+    return expr
+
+#==============================================================================
 def get_index_derivatives_atom(expr, atom, verbose=False):
     """This function return a dictionary of partial derivative indices for
     a given atom.
@@ -1237,7 +1244,9 @@ def get_index_derivatives_atom(expr, atom, verbose=False):
     indices = []
     for i in ops:
         a = get_atom_derivatives(i)
-        if a == atom:
+        # a chain mixing physical and logical derivatives also belongs to the
+        # function it is finally applied to
+        if a == atom or _get_atom_all_derivatives(i) == atom:
             index = get_index_derivatives(i)
             indices.append(index)
 
@@ -1256,7 +1265,7 @@ def get_index_logical_derivatives_atom(expr, atom, verbose=False):
     indices = []
     for i in ops:
         a = get_atom_logical_derivatives(i)
-        if a == atom:
+        if a == atom or _get_atom_all_derivatives(i) == atom:
             index = get_index_logical_derivatives(i)
             indices.append(index)
 
